@@ -31,6 +31,25 @@ Theorem C11_model_is_source_smooth_plates : forall rows ds,
 Proof. exact src_smooth_plates_is_model. Qed.
 Print Assumptions C11_model_is_source_smooth_plates.
 
+(* MergeMinPlateSmoother._get_plate_sample_id (retrospective.py): the `len(...) > 1` test, the raise, the `[0]`;
+   on the plate named p of the screen (a Plate is its selection vector) it is the model's [plate_sample] *)
+Theorem C11_model_is_source_merge_min_get_plate_sample_id : forall rows p,
+  src_merge_min_get_plate_sample_id rows (plate_vec p rows) = plate_sample p rows.
+Proof. exact src_get_plate_sample_id_is_model. Qed.
+Print Assumptions C11_model_is_source_merge_min_get_plate_sample_id.
+
+(* MergeMinPlateSmoother._smooth_plates (retrospective.py): the loop over the samples, the comprehension building the
+   heap (through the translated _get_plate_sample_id), the `while True:` with its two `break`s (len <= 1; sum of the two
+   smallest sizes > min_size), the two heappops, the merge of the second smallest WITH the smallest, the push.
+   The `while` is translated into recursion on the explicit fuel [fuel] (Err 98 if it ran out, which is not a Python
+   behaviour); with more fuel than the screen has experiments (e.g. fuel = S (length rows)) the translation equals
+   the model for every min_size, screen and answer stream - the model's own fuel (the heap size) is sufficient *)
+Theorem C11_model_is_source_merge_min_smooth_plates : forall min_size rows ds fuel,
+  length rows < fuel ->
+  src_merge_min_smooth_plates min_size rows ds fuel = merge_min min_size rows ds.
+Proof. exact src_merge_min_is_model. Qed.
+Print Assumptions C11_model_is_source_merge_min_smooth_plates.
+
 (* every shipped generator (PlatePermutation, SampleSegregating in both variants, Pairwise), every
    oracle answer: the output is new ++ (observed input rows, unchanged, still observed), the new rows
    are all unobserved and, minus plate labels, a permutation of the unobserved input rows *)
